@@ -189,21 +189,33 @@ def run_documents(ctx):
     docs = [d for d in finished if d["asked"]]
     reqs = [["history", c10.FUEL, G.sexp(d["prog"]), [G.sexp_path(p) for p in d["asked"]]] for d in docs]
     bad = 0
+    leaks = 0
     for d, rep in zip(docs, ctx.driver.ask_many(reqs)):
         got = [c10.canon_model(o) for o in rep[1:]]
         ctx.corr_checked += len(got)
         ctx.case({"text": d["text"], "traversals": len(d["asked"])}, nontrivial=True)
+        # isolation oracle (real code against real code): the same traversals on a document of its own
+        try:
+            src, index = c10.parse_indexed(d["prog"], d["text"])
+            solo = [c10.real_traverse(src, p, index) for p in d["asked"]]
+        except Exception:  # noqa: BLE001
+            solo = d["got"]
+        if solo != d["got"]:
+            leaks += 1
+            i = next(i for i, (a, b) in enumerate(zip(solo, d["got"])) if a != b)
+            if leaks <= 3:
+                ctx.fail({"clause": "isolation", "cause": "cross-document"},
+                         {"text": d["text"], "path": list(d["asked"][i]), "history": "document pool"},
+                         f"`{d['text']}` path {list(d['asked'][i])}: among other documents created and dropped in the "
+                         f"same process the code yields {d['got'][i]}, on a document of its own {solo[i]}")
         if got != d["got"]:
             bad += 1
             i = next(i for i, (a, b) in enumerate(zip(got, d["got"])) if a != b)
-            ctx.tie_break("correspondence", f"document in a pool: traversal {i} of {d['text']!r} differs from the "
-                          f"model of that document alone", request={"text": d["text"], "paths": [list(p) for p in d["asked"]]},
-                          implementation=d["got"], model=got)
             if bad <= 3:
-                ctx.fail({"clause": "isolation", "cause": "cross-document"},
-                         {"text": d["text"], "path": list(d["asked"][i]), "history": "document pool"},
-                         f"`{d['text']}` path {list(d['asked'][i])}: in a process with other documents the code yields "
-                         f"{d['got'][i]}, on its own {got[i]}")
+                ctx.tie_break("correspondence", f"document in a pool: traversal {i} of {d['text']!r} differs from the "
+                              f"model", request={"text": d["text"], "paths": [list(p) for p in d["asked"]]},
+                              implementation=d["got"], model=got)
+    ctx.count("pool_isolation_failures", leaks)
     ctx.count("pool_documents", len(docs))
     ctx.count("pool_disagreements", bad)
 
